@@ -60,7 +60,7 @@ class Predict(Harness):
         if kind == "phased":
             inp["A"] = mk.int("a", (2, n, m), lo=0, hi=1, vd="int8")
         elif kind == "unphased":
-            inp["A"] = mk.int("a", (n, m), lo=0, hi=2, vd="int8")
+            inp["A"] = mk.int("a", (n, m), lo=0, hi=self.params.get("ploidy", 2), vd="int8")
         else:
             inp["A"] = mk.real("a", (n, m), lo=0, hi=2)
         inp["X"] = mk.real("x", (n, q))
@@ -85,7 +85,7 @@ class Predict(Harness):
                     out["pred_whole"] = mod.predict_numpy(inp["X"], Z)
             return out
         A = _fork_concrete(inp["A"])
-        g = _mk_gmat(kind, A.copy())
+        g = _mk_gmat(kind, A.copy(), ploidy=self.params.get("ploidy", 2)) if kind == "unphased" else _mk_gmat(kind, A.copy())
         bv = mod.gegv(g) if dom else mod.gebv(g)
         out["gebv"] = bv.unscale()
         out["taxa"] = [str(x) for x in bv.taxa]
@@ -111,6 +111,7 @@ class Predict(Harness):
         n, m, t, q, kind = self.params["n"], self.params["m"], self.params["t"], self.params.get("q", 1), self.params["kind"]
         dom = bool(self.params.get("dominance"))
         A, u, b = inp["A"], inp["u"], inp["beta"]
+        pl = self.params.get("ploidy", 2)
         if kind == "phased":
             dos = [[cell(A, 0, i, k) + cell(A, 1, i, k) for k in range(m)] for i in range(n)]
         else:
@@ -127,7 +128,7 @@ class Predict(Harness):
             for k in range(m):
                 v = v + dos[i][k] * cell(u, k, tr)
                 if dom:
-                    het = Ite(And(dos[i][k] != 0, dos[i][k] != 2), 1, 0) if kind != "raw" else Ite(dos[i][k] == 1, 1, 0)
+                    het = Ite(And(dos[i][k] != 0, dos[i][k] != pl), 1, 0) if kind != "raw" else Ite(dos[i][k] == 1, 1, 0)
                     v = v + het * cell(inp["ud"], k, tr)
             return v
         for i in range(n):
@@ -140,7 +141,7 @@ class Predict(Harness):
                     for k in range(m):
                         y = y + dos[i][k] * cell(u, k, tr)
                         if dom:
-                            y = y + Ite(And(dos[i][k] != 0, dos[i][k] != 2), 1, 0) * cell(inp["ud"], k, tr)
+                            y = y + (Ite(And(dos[i][k] != 0, dos[i][k] != pl), 1, 0) if kind != "raw" else Ite(dos[i][k] == 1, 1, 0)) * cell(inp["ud"], k, tr)
                     P.prove(P.eq(cell(out["pred"], i, tr), y), "predict=X.beta+Z.u")
                 if "gebv_numpy" in out:
                     P.prove(P.eq(cell(out["gebv_numpy"], i, tr) + icpt[tr], value(i, tr)), "gebv_numpy=Z.u")
@@ -267,7 +268,12 @@ def obligations(tier):
         h = Predict(kind=kind, n=n, m=m, t=t, q=q, dominance=dom)
         h.weight = (4 if kind == "phased" else 3) ** (n * m)
         obs.append(h)
-    for n, m, t in ([(2, 1, 1), (1, 2, 1), (3, 1, 1)] if tier == "quick" else [(2, 1, 1), (2, 2, 1), (3, 1, 1), (2, 1, 2), (3, 2, 1)]):
+    # polyploid / haploid unphased panels: heterozygosity means 0 < dosage < ploidy
+    for pl, n, m, dom in ([(4, 2, 1, True), (1, 2, 1, True)] if tier == "quick" else [(4, 2, 1, True), (1, 2, 1, True), (3, 2, 1, True), (4, 1, 2, True), (4, 2, 1, False)]):
+        h = Predict(kind="unphased", n=n, m=m, t=1, q=1, dominance=dom, ploidy=pl)
+        h.weight = (pl + 1) ** (n * m)
+        obs.append(h)
+    for n, m, t in ([(2, 1, 1), (1, 2, 1), (3, 1, 1), (2, 1, 2)] if tier == "quick" else [(2, 1, 1), (2, 2, 1), (3, 1, 1), (2, 1, 2), (3, 2, 1)]):
         h = Stats(n=n, m=m, t=t)
         h.weight = 4 ** (n * m) * 3
         obs.append(h)
